@@ -56,7 +56,7 @@ def strategy():
                 tags['RC'] = draw(st.integers(0, 3))
             if draw(st.integers(0, 7)) == 0:
                 tags['RR'] = 'NoSite'
-            mm = draw(st.sampled_from(['none', 'none', 'NH', 'XA', 'XA_alt']))
+            mm = draw(st.sampled_from(['none', 'none', 'NH', 'XA', 'XA_alt', 'XA_alt_first', 'XA_alts']))
             if mm == 'NH':
                 tags['NH'] = draw(st.integers(1, 4))
             elif mm == 'XA':
@@ -64,6 +64,10 @@ def strategy():
                 tags['XA'] = ''.join('chr%d,+%d,20M,%d;' % (draw(st.integers(1, 2)), draw(st.integers(1, 500)), draw(st.integers(0, 2))) for _ in range(k))
             elif mm == 'XA_alt':
                 tags['XA'] = 'chr9_alt,-%d,20M,1;' % draw(st.integers(1, 500))
+            elif mm == 'XA_alt_first':
+                tags['XA'] = 'chr1_KI270762v1_alt,+%d,20M,0;chr2,-%d,20M,1;' % (draw(st.integers(1, 500)), draw(st.integers(1, 500)))
+            elif mm == 'XA_alts':
+                tags['XA'] = 'chr1_KI270762v1_alt,+%d,20M,0;chr9_alt,-%d,20M,1;' % (draw(st.integers(1, 500)), draw(st.integers(1, 500)))
             if draw(st.booleans()):
                 tags['mp'] = draw(st.sampled_from(['unique', 'unique', 'multi']))
             if draw(st.booleans()):
